@@ -141,6 +141,30 @@ func genDiscipline(repo, out string) {
 	b.WriteString("(* tDecoder.Decode / decodeType: the first statement is the zero test; (caller, callee, depth argument) of every recursive call; who assigns maxdepth *)\n")
 	b.WriteString("Definition depth_guards : list (string * bool) := [\n" + strings.Join(guards, ";\n") + "\n].\n")
 	b.WriteString("Definition depth_calls : list (string * string * string) := [\n" + strings.Join(calls, ";\n") + "\n].\n")
-	fmt.Fprintf(&b, "Definition depth_assigned : list string := %s.\n", coqStrList(uniq(assigned)))
+	fmt.Fprintf(&b, "Definition depth_assigned : list string := %s.\n\n", coqStrList(uniq(assigned)))
+
+	// ---- the once-per-type computations of desc.go, verbatim (white space removed) ----
+	rows = nil
+	for _, m := range [][2]string{{"*structDesc", "GetField"}, {"*structDesc", "fromDefsFields"}, {"*tField", "EncodedSize"}, {"*tField", "fromDefsField"}} {
+		body := "<missing>"
+		if fd := methodDecl(files, "internal/reflect/desc.go", m[0], m[1]); fd != nil && fd.Body != nil {
+			body = src(fd.Body)
+		}
+		rows = append(rows, fmt.Sprintf("  (%s, %s)", coqStr(strings.TrimPrefix(m[0], "*")+"."+m[1]), coqStr(body)))
+	}
+	for _, gf := range files {
+		if gf.path != "internal/reflect/desc.go" {
+			continue
+		}
+		ast.Inspect(gf.f, func(n ast.Node) bool {
+			vs, ok := n.(*ast.ValueSpec)
+			if ok && len(vs.Names) == 1 && vs.Names[0].Name == "containerTypes" && len(vs.Values) == 1 {
+				rows = append(rows, fmt.Sprintf("  (%s, %s)", coqStr("containerTypes"), coqStr(src(vs.Values[0]))))
+			}
+			return true
+		})
+	}
+	b.WriteString("(* desc.go: how a struct descriptor and its fields are computed from the resolved tags *)\n")
+	b.WriteString("Definition desc_bodies : list (string * string) := [\n" + strings.Join(rows, ";\n") + "\n].\n")
 	writeIfChanged(filepath.Join(out, "Discipline.v"), b.String())
 }
